@@ -16,6 +16,7 @@ object's state in the canonical text the Lean driver prints.
 """
 import queue
 import socket
+import sys
 import threading
 
 from pv.core import InfraError
@@ -87,7 +88,12 @@ class LThread:
                 return
             self.op = job[0]
             try:
-                self.result = job[1]()
+                if getattr(self.rig, "gates", None):
+                    sys.settrace(self._tracer)
+                try:
+                    self.result = job[1]()
+                finally:
+                    sys.settrace(None)
             except Abort:
                 self.result = "aborted"
             except socket.timeout:
@@ -97,6 +103,22 @@ class LThread:
             except Exception as e:  # noqa — classified by the caller
                 self.result = "EXC:" + type(e).__name__ + ":" + str(e)[:80]
             self.op = None
+
+
+def _lt_tracer(self, frame, event, arg):
+    """statement-level preemption point between the flag check and the flag write of _send_eof /
+    _close_internal — taken only when the channel lock is NOT held (a thread inside a `self.lock` region cannot
+    be overtaken by other lock users, and parking it there would deadlock the scheduler)"""
+    gates = self.rig.gates
+    if event == "call":
+        return self._tracer if frame.f_code in gates else None
+    if event == "line" and frame.f_code in gates and frame.f_lineno == gates[frame.f_code]:
+        if not self.rig.chan.lock.locked():
+            self.park("stmtgate", frame.f_code.co_name)
+    return self._tracer
+
+
+LThread._tracer = _lt_tracer
 
 
 class Clock:
@@ -111,25 +133,41 @@ class Clock:
 
 
 class FakeCV:
+    """stand-in for threading.Condition(self.lock) with the same contract: wait() releases the lock, sleeps until
+    the schedule wakes the thread, re-acquires the lock; notify(n) marks the n longest-waiting sleepers as
+    signalled, notify_all() all of them.  The schedule decides WHEN a sleeper runs again; `signalled` records
+    whether the real code has actually asked for it (a strict scheduler only wakes signalled or timed-out
+    sleepers; spurious wake-ups are allowed by Condition's contract and used by the random schedules)."""
+
     def __init__(self, rig, lock):
         self.rig, self.lock = rig, lock
-        self.notifies = 0
+        self.waiters = []
+        self.signalled = set()
 
     def wait(self, timeout=None):
         lt = self.rig.current()
         if lt is None:
             raise InfraError("out_buffer_cv.wait outside a logical thread")
+        self.waiters.append(lt)
         self.lock.release()
         try:
             lt.park("waiting", timeout)
         finally:
             self.lock.acquire()
+            self.waiters.remove(lt)
+            self.signalled.discard(lt)
         return True
 
-    def notify_all(self):
-        self.notifies += 1
+    def notify(self, n=1):
+        for lt in self.waiters:
+            if n <= 0:
+                break
+            if lt not in self.signalled:
+                self.signalled.add(lt)
+                n -= 1
 
-    notify = notify_all
+    def notify_all(self):
+        self.signalled.update(self.waiters)
 
 
 class FakeTransport:
@@ -192,13 +230,14 @@ POOL = Pool()
 
 
 class Rig:
-    def __init__(self, in_win, peer_win, peer_max, nthr, combine=False, chanid=1, base=0):
+    def __init__(self, in_win, peer_win, peer_max, nthr, combine=False, chanid=1, base=0, stmt_gates=False):
         import paramiko.channel as chmod
         from paramiko.message import Message
         self.chmod = chmod
         self.Message = Message
         self.wire, self.wire_by = [], []
         self.linked = True
+        self.gates = None
         self.nthr = nthr
         self.events = POOL.events
         POOL.ensure(self, base + nthr)
@@ -238,6 +277,9 @@ class Rig:
         chan._check_add_window = check_add_window
         chan.send = send
         chan.send_stderr = send_stderr
+        if stmt_gates:
+            from pv import lib_chanlock
+            self.gates = lib_chanlock.gate_lines(chmod.Channel)
 
     def current(self):
         return POOL.by_ident.get(threading.get_ident())
@@ -313,6 +355,10 @@ class Rig:
             self.call(int(w[1]), "close", lambda: (c.close(), "-")[1])
         elif k == "shutw":
             self.call(int(w[1]), "shutw", lambda: (c.shutdown_write(), "-")[1])
+        elif k == "shut2":
+            self.call(int(w[1]), "shut2", lambda: (c.shutdown(2), "-")[1])
+        elif k == "gate":
+            self.resume(int(w[1]), "stmtgate")
         elif k == "shutr":
             c.shutdown_read()
         elif k == "mode":
@@ -351,6 +397,17 @@ class Rig:
         else:
             raise InfraError("unknown op " + line)
 
+    def is_signalled(self, t):
+        return self.threads[t] in self.chan.out_buffer_cv.signalled
+
+    def lost_wakeup(self):
+        """a sender asleep in out_buffer_cv.wait that nobody has notified although the send window is open"""
+        if self.chan.out_window_size > 0:
+            for t, lt in enumerate(self.threads):
+                if lt.state == "waiting" and not self.is_signalled(t):
+                    return t
+        return None
+
     def _bytes_by(self, t):
         return sum(int(tok[1:]) for tok, by in zip(self.wire, self.wire_by)
                    if by == t and tok[0] in "dx" and "/" not in tok)
@@ -368,23 +425,27 @@ class Rig:
             return "g:%d" % lt.info
         if lt.state == "loophead":
             return "l:%d:%d" % lt.info
+        if lt.state == "stmtgate":
+            return "s:" + lt.info
         return "?" + lt.state
 
-    def view(self):
+    def view(self, with_sig=True):
         c = self.chan
+        sig = ",".join(str(t) for t in range(len(self.threads)) if self.is_signalled(t)) or "-"
         b = lambda x: "1" if x else "0"
         pipes_closed = c.in_buffer._closed and c.in_stderr_buffer._closed
-        return ("o=%d s=%d f=%s b=%d,%d w=%d:%s T=%s" % (
+        return ("o=%d s=%d f=%s b=%d,%d w=%d:%s T=%s%s" % (
             c.out_window_size, c.in_window_sofar,
             b(c.active) + b(c.closed) + b(c.eof_sent) + b(c.eof_received) + b(self.linked) + b(pipes_closed),
             len(c.in_buffer), len(c.in_stderr_buffer),
             len(self.wire), self.wire[-1] if self.wire else "-",
-            "|".join(self.thread_view(lt) for lt in self.threads)))
+            "|".join(self.thread_view(lt) for lt in self.threads), (" N=" + sig) if with_sig else ""))
 
 
 def normalise_model_view(line):
     """the model prints w:<want>:<ext>:<left>:<rem>; the real thread only exposes the timeout argument"""
     head, _, thr = line.partition(" T=")
+    thr, sep, sig = thr.partition(" N=")
     out = []
     for t in thr.split("|"):
         if t.startswith("w:"):
@@ -392,4 +453,4 @@ def normalise_model_view(line):
             out.append("w:" + p[3])
         else:
             out.append(t)
-    return head + " T=" + "|".join(out)
+    return head + " T=" + "|".join(out) + sep + sig
